@@ -342,6 +342,17 @@ pub fn c02_run(ctx: &mut Ctx, case: &TokCase) {
                     continue;
                 }
                 ctx.bucket("blackbox_optimum_compared");
+                // short sentences: every segmentation enumerated one by one (no DP shared with the reference)
+                if chars.len() <= 7 {
+                    if let Some(bf) = refd.brute_force_min(&rout, 200_000) {
+                        let pc = path_cost(&refd, &toks).unwrap_or(i64::MIN);
+                        if pc != bf {
+                            ctx.violation("cheaper_path_exists_by_enumeration", "C02:cheaper_path_exists_by_enumeration", format!("the reported path costs {pc}; enumerating every segmentation of the candidate set gives a minimum of {bf} (reference DP: {:?})", rout.total), case.brief(s, o));
+                            continue;
+                        }
+                        ctx.bucket("every_segmentation_enumerated");
+                    }
+                }
             }
             let complete_paths_ge2 = dump.ends.iter().skip(1).filter(|e| e.len() >= 2).count() >= 1;
             if complete_paths_ge2 {
